@@ -30,6 +30,9 @@ def run(ses):
         cases = [(tc, a, b) for tc in ("IU2", "C*8") for a in kinds for b in kinds]
     run_cases(ses, "props.arraychain", "case_getitem", cases)
     run_cases(ses, "props.arraychain", "case_post_init", [("IU2",), ("C*8",)])
+    from props import arraychain as _ac
+
+    _ac.resolve_limits(ses)
     # raw sample layouts: big-endian, real before imaginary
     fn = ses.under_contract(A.parse_data)
     iu2, c8 = A.raw_dtypes["IU2"], A.raw_dtypes["C*8"]
